@@ -626,6 +626,10 @@ fn exec_rust(spec: &OpSpec, rootfd: i32) -> Outcome {
         }
         Op::Reopen { slot: s, flags } => {
             let fd = slot(*s);
+            if fd < 0 {
+                // the set-up operation that should have filled the slot failed
+                return Outcome::Harness(-2);
+            }
             let h = HandleRef::from_fd(unsafe { BorrowedFd::borrow_raw(fd) });
             rust_fd(h.reopen(OpenFlags::from_bits_retain(*flags)))
         }
